@@ -79,6 +79,11 @@ func c15Values() []V {
 		mp(), mp(kw("k"), I(1)), mp(S("s"), Vc(I(1))),
 		model.SetOf(), model.SetOf(model.Key{S: "a"}, model.Key{Kw: true, S: "k"}),
 		mp(kw("k"), L(S("¬"), S(`{"a":1}`), S("l1\nl2"))),
+		// text that a formatter would take for directives
+		S("100%"), S("%d items"), S("100%% sure"), S("%"), S("%s%v%!"), L(S("%x"), mp(kw("k"), S("50%"))),
+		// keys and set elements with control and non-printing characters, and the empty key
+		mp(S("a\tb"), I(1)), mp(S("\r"), I(1), S("\x7f"), I(2)), mp(S("\u200b"), I(1), S("\u00a0"), I(2)), mp(S(""), I(0), kw("k"), I(1)),
+		model.SetOf(model.Key{S: "a\tb"}, model.Key{S: ""}), L(mp(S("k\te\\y\"%"), Vc(S("\t")))),
 	}
 }
 
